@@ -37,10 +37,14 @@ ENGINES = {
 PATSETS = {1: (0,), 2: (0, 1), 3: (2,), 4: (2, 0)}
 
 
+FILE_STYLE = [("\r\n", True), ("\n", True), ("\r", True), ("\r\n", False), ("\n", False)]
+
+
 def bounds(tier, seed):
     return {"max_files": 3 if tier == "quick" else 5, "pattern_sets_per_file": {str(k): list(v) for k, v in PATSETS.items()}, "engines": sorted(ENGINES),
             "config_formats": ["bumpver.toml", "setup.cfg"], "faults": ["none", "nomatch(file,pattern)", "missing(file)", "undecodable(file)",
             "lower-set-version", "no-change-bump"], "modes": ["update --dry", "update", "update + commit (fake git)"],
+            "file_styles": "per file: CRLF / LF / CR / CRLF without final newline / LF without final newline, non-ASCII header",
             "orders": "all permutations of the file entries, config entry explicit at every position or implicit"}
 
 
@@ -71,10 +75,12 @@ def make_project(engine, fmt, names, npat, order, explicit, fault):
     files = {}
     for name, k in zip(names, npat):
         pats = [E["pats"][i] for i in PATSETS[k]]
-        lines = ["header of " + name] + [E["occ"][i] for i in PATSETS[k]] + ["footer"]
+        lines = ["h\u00e9ader \u20ac of " + name] + [E["occ"][i] for i in PATSETS[k]] + ["footer"]
         if fault and fault[0] == "nomatch" and fault[1] == name:
             lines[1 + fault[2]] = "xxx=" + E["old"]  # the occurrence of that pattern is gone
-        files[name] = ("\n".join(lines) + "\n").encode()
+        # line-ending style and final newline differ per file (a restore/rollback that normalises them must show)
+        eol, final = FILE_STYLE[int(name[1]) % len(FILE_STYLE)]
+        files[name] = (eol.join(lines) + (eol if final else "")).encode("utf-8")
         entries.append((name, pats))
     own = 'current_version = "{version}"' if fmt.endswith(".toml") else "current_version = {version}"
     ents = {name: pats for name, pats in entries}
@@ -82,7 +88,7 @@ def make_project(engine, fmt, names, npat, order, explicit, fault):
         ents[fmt] = [own]
     ordered = [(k, ents[k]) for k in order if k in ents]
     files[fmt] = pt.config_text(fmt, E["vp"], E["old"], ordered).encode()
-    files["bystander.txt"] = b"ver=1.2.3;\n"
+    files["bystander.txt"] = b"ver=1.2.3;\r\n"
     if fault and fault[0] == "missing":
         del files[fault[1]]
     if fault and fault[0] == "undecodable":
@@ -208,7 +214,9 @@ def run_one(st, engine, fmt, names, npat, order, explicit, fault, mode):
     finally:
         fakevcs.uninstall()
     st.evaluations += 1
+    st.transitions += 1
     after = world.read_tree(".")
+    st.state(sorted(files.items()), mode, args)
     fname = "none" if fault is None else fault[0]
     case = {"engine": engine, "format": fmt, "files": list(names), "patterns_per_file": list(npat), "order": list(order),
             "explicit_config_entry": explicit, "fault": list(fault) if fault else None, "mode": mode}
